@@ -1,6 +1,6 @@
 """C18 - DataSet transformations preserve the labelled samples.
 
-ALL operation sequences up to depth D over a 31-operation alphabet (incl. operations on derived objects: copies and split pieces) on real DataSet objects (initial sets: empty,
+ALL operation sequences up to depth 4 (thorough: additionally depth 5 over the 14 state-changing core operations) over a 33-operation alphabet (incl. operations on derived objects: copies and split pieces) on real DataSet objects (initial sets: empty,
 single sample, two samples, ties in min/max with an unlabelled sample, one-dimensional, integer dtype), compared after every step
 with a reference model: the multiset of (sample,label) pairs, the affine bookkeeping since the last overriding
 rescale, and field-by-field propagation of the scaling attributes.  `shuffle` is put under the explorer's control
@@ -39,7 +39,7 @@ INITS = {
     "ints": (np.array([[1, 3], [6, 2], [3, 3]]), np.array([0, 1, 1])),       # integer-valued sample array (dtype int)
     "far": (np.array([[1048576.0, 1.0], [1048578.0, 3.0], [1048577.5, 1.0]]), np.array([1, 0, 1])),   # offset large compared with the extent
 }
-OPS = ["sr01", "sr-12", "sr01_override", "sf2", "sf_neg", "sf_vec", "sf_vec_neg", "shift.5", "shift_vec", "revert", "shuffle_rev", "shuffle_rot", "mbf",
+OPS = ["sr01", "sr-12", "sr01_override", "sf2", "sf_neg", "sf_vec", "sf_vec_neg", "shift.5", "shift_vec", "shift0", "sf_int1", "revert", "shuffle_rev", "shuffle_rot", "mbf",
        "split_labels_cat", "split_pieces.5_cat", "split_pieces0_cat", "split_pieces1_cat", "split_nolabel_cat",
        "rm0", "rm_dup", "rm_oor", "rm_neg", "cat_diff_scaled",
        # an operation applied to an object DERIVED from the data set (copy / a split_labels piece) must leave the data set itself alone
@@ -93,7 +93,7 @@ def _apply(ds, op, model):
             issues.append(("labels_changed", "labels after scale_range %r" % (r,)))
         if list(ds.get_data()[1]) != [int(l) for l in model.get("_labels_before", ds.get_data()[1])]:
             pass
-    elif op in ("sf2", "sf_neg", "sf_vec", "sf_vec_neg", "shift.5", "shift_vec"):
+    elif op in ("sf2", "sf_neg", "sf_vec", "sf_vec_neg", "shift.5", "shift_vec", "shift0", "sf_int1"):
         if n == 0:
             raise Refusal()
         if not ds.is_scaled():
@@ -112,6 +112,12 @@ def _apply(ds, op, model):
         elif op == "shift.5":
             ds.shift_value(0.5)
             want = [tuple(v + 0.5 for v in x) for x in order_before]
+        elif op == "shift0":        # falsy but legal: a shift by 0.0 is a (first) scaling like any other
+            ds.shift_value(0.0)
+            want = [tuple(float(v) for v in x) for x in order_before]
+        elif op == "sf_int1":       # the factor 1 spelled as a Python int
+            ds.scale_factor(1)
+            want = [tuple(float(v) for v in x) for x in order_before]
         else:
             svec = np.array([0.25, -1.0][:dim])
             ds.shift_value(svec)
@@ -256,10 +262,10 @@ def _apply(ds, op, model):
     return ds, issues
 
 
-def _dfs(name, ds, model, seq, depth, fails, seen, counter):
+def _dfs(name, ds, model, seq, depth, fails, seen, counter, ops=None):
     if len(seq) >= depth:
         return
-    for op in OPS:
+    for op in (ops or OPS):
         ds2, model2 = copy.deepcopy(ds), copy.deepcopy(model)
         counter[0] += 1
         seq2 = seq + [op]
@@ -288,7 +294,7 @@ def _dfs(name, ds, model, seq, depth, fails, seen, counter):
                 f = fail(oracle, "init %s, sequence %r: %s" % (name, seq2, detail), key)
                 f["case"] = {"config": {"init": name, "prefix": seq2, "depth": len(seq2)}}
                 fails.append(f)
-        _dfs(name, ds2, model2, seq2, depth, fails, seen, counter)
+        _dfs(name, ds2, model2, seq2, depth, fails, seen, counter, ops)
 
 
 def run_case(case):
@@ -317,21 +323,27 @@ def run_case(case):
             for oracle, detail in issues:
                 fails.append(fail(oracle, "init %s, sequence %r: %s" % (c["init"], c["prefix"], detail), {"op": op.split("_cat")[0]}))
                 seen.add((oracle, op))
-    _dfs(c["init"], ds, model, list(c["prefix"]), c["depth"], fails, seen, counter)
+    _dfs(c["init"], ds, model, list(c["prefix"]), c["depth"], fails, seen, counter, c.get("ops"))
     return {"failures": fails, "canon": core.config_key(c), "outcome": (counter[0], len(fails), tuple(_ms(ds))[:2]), "nontrivial": True,
             "evals": counter[0] + 1}
 
 
+# the state-changing core of the alphabet, explored one level deeper in the thorough tier (33^5 sequences per initial set are out of reach)
+CORE = ["sr01", "sr-12", "sr01_override", "sf2", "sf_vec_neg", "shift.5", "revert", "shuffle_rot", "mbf", "split_labels_cat",
+        "split_pieces.5_cat", "rm0", "derived_copy_sf2", "derived_split_revert"]
+
+
 def cases(tier):
-    depth = 4 if tier == "quick" else 5
     out = []
     for name in INITS:
         for a in OPS:
-            if False:
-                out.append({"config": {"init": name, "prefix": [a], "depth": depth}})
-            else:
-                for b in OPS:
-                    out.append({"config": {"init": name, "prefix": [a, b], "depth": depth}})
+            for b in OPS:
+                out.append({"config": {"init": name, "prefix": [a, b], "depth": 4}})
+    if tier != "quick":
+        for name in INITS:
+            for a in CORE:
+                for b in CORE:
+                    out.append({"config": {"init": name, "prefix": [a, b], "depth": 5, "ops": CORE}})
     return out
 
 
@@ -347,9 +359,9 @@ def main(ctx):
     ctx.add_sample({"init": "ties", "sequence": ["sr01", "shift.5", "sf2", "sr-12", "revert"]})
     ctx.add_sample({"init": "d1", "sequence": ["sf2", "split_labels_cat"]})
     ctx.add_sample({"init": "two", "sequence": ["sr01", "cat_diff_scaled"]})
-    ctx.bounds = {"depth": 4 if ctx.tier == "quick" else 5, "alphabet": OPS, "initial_sets": sorted(INITS), "sequences_executed": total}
+    ctx.bounds = {"depth": 4, "depth_core_alphabet": None if ctx.tier == "quick" else 5, "core_alphabet": CORE, "alphabet": OPS, "initial_sets": sorted(INITS), "sequences_executed": total}
     return ctx.finish(
-        rule="every operation sequence up to the stated depth over the 31-operation alphabet on 7 initial data sets (one case = all "
+        rule="every operation sequence up to the stated depth over the 33-operation alphabet on 7 initial data sets (one case = all "
              "completions of a prefix; evaluations = executed operations), lock-step with the reference model after every step",
         assumptions=["revert-restores-original is only demanded while no sample was removed since the first scaling (the statement lists "
                      "scalings, shifts and factors 'in between')", "an exception on an EMPTY set counts as refusal of a degenerate input",
